@@ -57,7 +57,7 @@ Lemma unwind_step c s t n r :
              (match n with O => pcof s' t = PDone r | S _ => unwind_len (pcof s' t) = Some (n, r) end).
 Proof.
   intros H. cbn [step]. unfold step_task.
-  destruct (pcof s t) as [|g|g|g a|g|g|g o st|g|g o|g o k|g o k|g o k|r0|r0|o|o| |o|o|o|o|o|o|n0|ds| | | |r0] eqn:Hpc;
+  destruct (pcof s t) as [|g|g|g a|g|g|g o st|g|g o|g o k|g o k|g o k|r0|r0|o|o| |o|o|o|o|o|o|n0|ds| | | |n9|ds|ds| | |r0] eqn:Hpc;
     try discriminate H; cbn [unwind_len] in H.
   - destruct k; inversion H; subst. eexists. split; [reflexivity|].
     rewrite pcof_tick, pcof_setpc_same. reflexivity.
@@ -98,7 +98,7 @@ Lemma cancel_enabled_iff c s t :
   (exists s', step c s (Cancel t) = Some s') <-> cancellable c (pcof s t) = true.
 Proof.
   cbn [step]. unfold cancel_task, cancellable.
-  destruct (pcof s t) as [|g|g|g a|g|g|g o st|g|g o|g o k|g o k|g o k|r0|r0|o|o| |o|o|o|o|o|o|n0|ds| | | |r0];
+  destruct (pcof s t) as [|g|g|g a|g|g|g o st|g|g o|g o k|g o k|g o k|r0|r0|o|o| |o|o|o|o|o|o|n0|ds| | | |n9|ds|ds| | |r0];
     cbn [option_map];
     try (split; [intros [s' H]; discriminate H|intros H; discriminate H]);
     try (split; [reflexivity|intros _; eexists; reflexivity]).
@@ -114,7 +114,7 @@ Lemma cancel_unwinds c s t s' :
   step c s (Cancel t) = Some s' -> exists n r, unwind_len (pcof s' t) = Some (n, r).
 Proof.
   cbn [step]. unfold cancel_task.
-  destruct (pcof s t) as [|g|g|g a|g|g|g o st|g|g o|g o k|g o k|g o k|r0|r0|o|o| |o|o|o|o|o|o|n0|ds| | | |r0];
+  destruct (pcof s t) as [|g|g|g a|g|g|g o st|g|g o|g o k|g o k|g o k|r0|r0|o|o| |o|o|o|o|o|o|n0|ds| | | |n9|ds|ds| | |r0];
     cbn [option_map]; try discriminate;
     try (destruct (stage_async c st)); try (destruct (is_async (pcr c) k)); cbn [option_map];
     try discriminate; intros H; inversion H; subst; rewrite pcof_tick, pcof_setpc_same;
@@ -126,7 +126,7 @@ Lemma panic_unwinds c s t s' :
   exists n, unwind_len (pcof s' t) = Some (n, RPanicked).
 Proof.
   cbn [step]. unfold env_task.
-  destruct (pcof s t) as [|g|g|g a|g|g|g o st|g|g o|g o k|g o k|g o k|r0|r0|o|o| |o|o|o|o|o|o|n0|ds| | | |r0];
+  destruct (pcof s t) as [|g|g|g a|g|g|g o st|g|g o|g o k|g o k|g o k|r0|r0|o|o| |o|o|o|o|o|o|n0|ds| | | |n9|ds|ds| | |r0];
     cbn [option_map]; try discriminate; intros H; inversion H; subst;
     rewrite pcof_tick, pcof_setpc_same; cbn [unwind_len]; eauto.
 Qed.
@@ -149,7 +149,7 @@ Lemma cancel_panic_same_unwind c s t s1 s2 :
   /\ out s1 = out s2 /\ debt s1 = debt s2 /\ queue s1 = queue s2.
 Proof.
   cbn [step]. unfold cancel_task, env_task.
-  destruct (pcof s t) as [|g|g|g a|g|g|g o st|g|g o|g o k|g o k|g o k|r0|r0|o|o| |o|o|o|o|o|o|n0|ds| | | |r0];
+  destruct (pcof s t) as [|g|g|g a|g|g|g o st|g|g o|g o k|g o k|g o k|r0|r0|o|o| |o|o|o|o|o|o|n0|ds| | | |n9|ds|ds| | |r0];
     cbn [at_gate option_map]; try discriminate;
     try (destruct (stage_async c st)); try (destruct (is_async (pcr c) k)); cbn [option_map];
     try discriminate; intros _ H1 H2; inversion H1; inversion H2; subst;
